@@ -7,6 +7,10 @@ import WuffsVerif.Proof.HashBuf
 namespace WuffsVerif.Png.Uncomp
 open WuffsVerif.Hash
 
+/-- a non-negative value below 2^63 is what a Go `int` holds: no wrap-around -/
+theorem wrapInt64_natCast (n : Nat) (h : n < 9223372036854775808) : wrapInt64 (n : Int) = (n : Int) := by
+  unfold wrapInt64; omega
+
 theorem Enc.set_size (e : Enc) (i : Nat) (v : UInt8) : (e.set i v).buf.size = e.buf.size := by
   unfold Enc.set; split <;> simp
 
